@@ -65,8 +65,7 @@ def cycle (l : List Bytes) (rep : Nat) : List Bytes := (List.replicate rep l).fl
 
 /-- `dissect <ic> <pattern> <lines> <rep>`: compile, create ONE instance, match `lines` (the list
 repeated `rep` times), then re-read every returned slice after the last call. -/
-def handle : List String → String
-  | ["dissect", ic, pat, lines, rep] =>
+def dissectOp (ic pat lines rep : String) : String :=
     match Hex.dec pat, decHexList lines, rep.toNat? with
     | some pat, some lines, some rep =>
       match compileEx pat (ic == "1") with
@@ -78,6 +77,13 @@ def handle : List String → String
           s!"ok n={renderNames d.groupNames} a={if final == atRet then 1 else 0} r={renderRes final}"
         | _, _ => "panic"
     | _, _, _ => "bad-args"
+
+def handle : List String → String
+  | ["dissect", ic, pat, lines, rep] => dissectOp ic pat lines rep
+  -- `par <ic> <pattern> <lines> <rep> <k>`: k goroutines, each with its OWN instance (through
+  -- matchers.ToFactory) of the one compiled pattern, match the same lines concurrently; by
+  -- `instances_independent` every one of them answers what a single instance answers
+  | ["par", ic, pat, lines, rep, _k] => dissectOp ic pat lines rep
   -- the SPECIFICATION evaluated on a structured pattern (the Go side renders and compiles it)
   | ["specp", ic, pre, keys, lits, lines, rep] =>
     match Hex.dec pre, decHexList keys, decHexList lits, decHexList lines, rep.toNat? with
